@@ -658,6 +658,77 @@ fn build_ops(quick: bool) -> (Vec<Op>, Vec<String>) {
         }
     }
 
+    // --- file based APIs (ClaimAssetData::Path branches): with_file, sign_file, with_fragmented_files
+    for (a, h, sg, _m) in signed.iter().filter(|x| matches!(x.0.name.as_str(), "tiny.jpg" | "tiny.mp4" | "tiny.png" | "tiny_big.mp4")) {
+        let ext = a.format;
+        let bytes = sg.clone();
+        ops.push(Op {
+            name: format!("read|{}|{}|file", a.name, h),
+            family: "read",
+            hash: h,
+            fmt: a.format.to_string(),
+            settings: plain.clone(),
+            ctx_signer: false,
+            resolver: None,
+            probe_ok: no_failures,
+            run: Box::new(move |ctx, tr| {
+                let dir = tempfile::tempdir().map_err(|e| Fail { call: 9, kind: "Harness".into(), msg: e.to_string(), detail: None })?;
+                let path = dir.path().join(format!("in.{ext}"));
+                std::fs::write(&path, &bytes).map_err(|e| Fail { call: 9, kind: "Harness".into(), msg: e.to_string(), detail: None })?;
+                let r = tr.call_s(0, "read", || Reader::from_shared_context(ctx).with_file(&path), reader_summary)?;
+                Ok(reader_summary(&r))
+            }),
+        });
+    }
+    for a in [&jpg, &mp4] {
+        let h = if is_bmff(a.format) { "bmff" } else { "data" };
+        let a = a.clone();
+        ops.push(Op {
+            name: format!("sign|{}|{}|file", a.name, h),
+            family: "sign",
+            hash: h,
+            fmt: a.format.to_string(),
+            settings: plain.clone(),
+            ctx_signer: false,
+            resolver: None,
+            probe_ok: any_ok,
+            run: Box::new(move |ctx, tr| {
+                let herr = |e: std::io::Error| Fail { call: 9, kind: "Harness".into(), msg: e.to_string(), detail: None };
+                let dir = tempfile::tempdir().map_err(herr)?;
+                let src = dir.path().join(format!("in.{}", a.format));
+                let dst = dir.path().join(format!("out.{}", a.format));
+                std::fs::write(&src, &a.bytes).map_err(herr)?;
+                let mut b = tr.call(0, "with_definition", || Builder::from_shared_context(ctx).with_definition(definition("c23")))?;
+                b.set_intent(BuilderIntent::Edit);
+                let signer = signers::test_signer("ed25519");
+                let m = tr.call(1, "sign", || b.sign_file(signer.as_ref(), &src, &dst))?;
+                Ok(json!({"kind": "signed", "manifest_len": m.len()}))
+            }),
+        });
+    }
+    if let (Some(init), Some(frag)) = (assets::fixture("dashinit.mp4"), assets::fixture("dash1.m4s")) {
+        ops.push(Op {
+            name: "read|dashinit.mp4+dash1.m4s|bmff|fragment-files".into(),
+            family: "read",
+            hash: "bmff-fragment",
+            fmt: "mp4".into(),
+            settings: base_settings(json!({"verify": {"verify_trust": false}})),
+            ctx_signer: false,
+            resolver: None,
+            probe_ok: any_ok,
+            run: Box::new(move |ctx, tr| {
+                let herr = |e: std::io::Error| Fail { call: 9, kind: "Harness".into(), msg: e.to_string(), detail: None };
+                let dir = tempfile::tempdir().map_err(herr)?;
+                let ip = dir.path().join("dashinit.mp4");
+                let fp = dir.path().join("dash1.m4s");
+                std::fs::write(&ip, &init).map_err(herr)?;
+                std::fs::write(&fp, &frag).map_err(herr)?;
+                let r = tr.call_s(0, "read", || Reader::from_shared_context(ctx).with_fragmented_files(&ip, &vec![fp.clone()]), reader_summary)?;
+                Ok(reader_summary(&r))
+            }),
+        });
+    }
+
     // --- archive: to_archive / with_archive / sign
     if let Some(sj) = find("tiny.jpg", "data") {
         for gen_c2pa in [None, Some(true)] {
@@ -1012,7 +1083,7 @@ fn main() {
     let enumerated = cases.len();
     // free-running cross-thread cancels
     let mut rng = Rng::new(run.seed, "c23-delay");
-    let per_op = run.tier.pick(6, 60);
+    let per_op = run.tier.pick(6, 300);
     for &i in &usable {
         let n = probes[i].events.len() as u64;
         for _ in 0..per_op {
